@@ -4,6 +4,7 @@ import Driver.Enc
 import Driver.Trace
 import Driver.IO
 import Driver.Equiv
+import Driver.Sat
 import Crusta.Model.Graph
 
 open Crusta Driver
@@ -219,6 +220,7 @@ def main : IO Unit := do
       | "enc" => runEnc c.lines
       | "multi" => runMulti c
       | "equiv" => runEquiv c.lines
+      | "sat" => runSat c.lines
       | "read" => runRead c.lines
       | "write" => runWrite c.lines
       | f => [s!"verdict BAD unknown family {f}"]
